@@ -89,6 +89,9 @@ class Hang(Exception):
     pass
 
 
+HANGS = [0]     # searches cut by the alarm in this worker process
+
+
 def _alarm(_sig, _frm):
     raise Hang()
 
@@ -227,7 +230,9 @@ def run_hc(case):
     site = None
     # a live-range set of at most 40 ranges needs milliseconds with <= 700 iterations; a search that spins (seen with seeded changes of
     # the termination test) is cut after 15 s instead of 60 s so that a broken tree still gets its verdict within the time limit
-    signal.alarm(opts.get("timeout", 60 if len(ranges) > 40 else 15))
+    # ... and once three searches of this worker process have been cut, every later one gets 1 s: a tree whose search spins on most inputs
+    # (seeded change C05-r6m2) must not turn the check into an hour of waiting; never triggered on a tree whose searches terminate
+    signal.alarm(1 if HANGS[0] >= 3 else opts.get("timeout", 60 if len(ranges) > 40 else 15))
     try:
         if opts.get("via_allocate"):
             class Arch:
@@ -250,6 +255,8 @@ def run_hc(case):
     except LookupError:
         real = "err:unalloc"
     except Exception as e:  # noqa
+        if isinstance(e, Hang):
+            HANGS[0] += 1
         real = exc_name(e)
         if real == "err:alloc":
             addrs = [t.address for t in tens]
